@@ -84,29 +84,47 @@ def initObjectWriter (o : Obj) : Obj × List WEv :=
 
 def setBlk (l : List Blk) (i : Nat) (b : Blk) : List Blk := l.set i b
 
+/-- bookkeeping of one written block (`BlockWriter::write` + the tail of the `write_blocks` loop
+    body): (object after, bytes handed to the writer) -/
+def wbAdvance (o : Obj) (off : Nat) (b : Blk) : Obj × Nat :=
+  let dlen := (b.got.map (·.2)).foldl (· + ·) 0
+  let len := if o.bytesLeft > dlen then dlen else o.bytesLeft
+  let o := { o with bytesLeft := o.bytesLeft - len, bwSbn := o.bwSbn + 1 }
+  let o := if off = 0 then { o with blocksOffset := o.blocksOffset + 1, blocks := o.blocks.drop 1 }
+           else { o with blocks := setBlk o.blocks off { b with got := [] } }
+  (o, len)
+
 /-- `write_blocks(sbn_start)`; the loop writes one block per iteration -/
 def writeBlocks : Nat → Obj → Nat → Obj × List WEv
   | 0, o, _ => (o, [])
   | fuel + 1, o, sbn =>
     if o.wsess ≠ .opened ∨ ¬ o.hasBw then (o, []) else
     if sbn < o.blocksOffset ∨ sbn - o.blocksOffset ≥ o.blocks.length then (o, []) else
-    let off := sbn - o.blocksOffset
-    match o.blocks[off]? with
+    match o.blocks[sbn - o.blocksOffset]? with
     | none => (o, [])
     | some b =>
       if ¬ b.completed then (o, []) else
       if o.bwSbn ≠ sbn then (o, []) else
-      let dlen := (b.got.map (·.2)).foldl (· + ·) 0
-      let len := if o.bytesLeft > dlen then dlen else o.bytesLeft
-      let o := { o with bytesLeft := o.bytesLeft - len, bwSbn := o.bwSbn + 1 }
-      let o := if off = 0 then { o with blocksOffset := o.blocksOffset + 1, blocks := o.blocks.drop 1 }
-               else { o with blocks := setBlk o.blocks off { b with got := [] } }
-      if o.bytesLeft = 0 then
-        let (o, e) := complete o
-        (o, WEv.write sbn len :: e)
+      let a := wbAdvance o (sbn - o.blocksOffset) b
+      if a.1.bytesLeft = 0 then
+        ((complete a.1).1, WEv.write sbn a.2 :: (complete a.1).2)
       else
-        let (o, e) := writeBlocks fuel o (sbn + 1)
-        (o, WEv.write sbn len :: e)
+        ((writeBlocks fuel a.1 (sbn + 1)).1, WEv.write sbn a.2 :: (writeBlocks fuel a.1 (sbn + 1)).2)
+
+/-- enough iterations for the `write_blocks` loop: it writes one block per iteration -/
+def wbFuel (o : Obj) : Nat := o.blocks.length + 1
+
+/-- `blocks.resize_with(block_offset + 1, ..)` when the block is not there yet -/
+def growBlocks (o : Obj) (off : Nat) : Obj :=
+  if off ≥ o.blocks.length then
+    { o with blocks := o.blocks ++ List.replicate (off + 1 - o.blocks.length) {} } else o
+
+/-- `BlockDecoder::init` (first symbol) + `NoCodeDecoder::push_symbol` / `can_decode` -/
+def blkPush (o : Obj) (b : Blk) (sbn esi plen : Nat) : Blk :=
+  let b := if b.initialized then b else
+    { b with initialized := true, k := if sbn < o.nbALarge then o.aLarge else o.aSmall }
+  let b := if esi < b.k ∧ ¬ (b.got.any (·.1 = esi)) then { b with got := b.got ++ [(esi, plen)] } else b
+  if b.got.length = b.k then { b with completed := true } else b
 
 /-- `push_to_block2`; `Except.error o` = returned `Err` with the object state left as `o` -/
 def pushToBlock2 (o : Obj) (p : Pkt) : Except Obj (Obj × List WEv) :=
@@ -115,21 +133,15 @@ def pushToBlock2 (o : Obj) (p : Pkt) : Except Obj (Obj × List WEv) :=
     if l = 0 then .ok (complete o) else
     if sbn ≥ o.nbBlocks then .ok (o, []) else
     if sbn < o.blocksOffset then .ok (o, []) else
-    let off := sbn - o.blocksOffset
-    if off ≥ o.blocks.length ∧ off > 2 * 2048 then .error { o with st := .error } else
-    let o := if off ≥ o.blocks.length then
-        { o with blocks := o.blocks ++ List.replicate (off + 1 - o.blocks.length) {} } else o
-    match o.blocks[off]? with
-    | none => .ok (o, [])
+    if sbn - o.blocksOffset ≥ o.blocks.length ∧ sbn - o.blocksOffset > 2 * 2048 then .error { o with st := .error } else
+    match (growBlocks o (sbn - o.blocksOffset)).blocks[sbn - o.blocksOffset]? with
+    | none => .ok (growBlocks o (sbn - o.blocksOffset), [])
     | some b =>
-      if b.completed then .ok (o, []) else
-      let b := if b.initialized then b else
-        { b with initialized := true, k := if sbn < o.nbALarge then o.aLarge else o.aSmall }
-      -- NoCodeDecoder::push_symbol / can_decode
-      let b := if esi < b.k ∧ ¬ (b.got.any (·.1 = esi)) then { b with got := b.got ++ [(esi, p.plen)] } else b
-      let b := if b.got.length = b.k then { b with completed := true } else b
-      let o := { o with blocks := setBlk o.blocks off b }
-      if b.completed then .ok (writeBlocks (o.blocks.length + 1) o sbn) else .ok (o, [])
+      if b.completed then .ok (growBlocks o (sbn - o.blocksOffset), []) else
+      let b' := blkPush o b sbn esi p.plen
+      let o' := { growBlocks o (sbn - o.blocksOffset) with
+                  blocks := setBlk (growBlocks o (sbn - o.blocksOffset)).blocks (sbn - o.blocksOffset) b' }
+      if b'.completed then .ok (writeBlocks (wbFuel o') o' sbn) else .ok (o', [])
   | _, _, _ => .error o
 
 /-- `push_to_block` -/
@@ -205,7 +217,7 @@ def attachFdt (o : Obj) (id : Nat) (fdt : FdtAbs) : Obj × Bool × List WEv :=
     let o := initBlocksPartitioning o
     let (o, e1) := initObjectWriter o
     let (o, e2) := pushFromCache o
-    let (o, e3) := writeBlocks (o.blocks.length + 1) o 0
+    let (o, e3) := writeBlocks (wbFuel o) o 0
     let (o, e4) := pushFromCache o
     (o, true, e1 ++ e2 ++ e3 ++ e4)
 
